@@ -45,9 +45,12 @@ def ctx():
     return _CTX[0]
 
 
+_MODE = {'tolerant': False}
+
+
 def walker(s):
     from pylatexenc.latexwalker import LatexWalker
-    return LatexWalker(s, latex_context=ctx(), tolerant_parsing=False)
+    return LatexWalker(s, latex_context=ctx(), tolerant_parsing=_MODE['tolerant'])
 
 
 def norm(x):
@@ -99,6 +102,11 @@ def compare(name, legacy, new, res, case, note=''):
         res.label('both-fail:' + name)
         return
     res.label('both-succeed:' + name, case)
+    if legacy[1] is None or new[1] is None:
+        if legacy[1] is not new[1]:
+            res.fail('c16:differs:%s:none-vs-node' % name, '%s: legacy %s, new parser %s'
+                     % (name, str(legacy[1])[:120], str(new[1])[:120]), case)
+        return
     if legacy[1] != new[1]:
         ld, lp, ll = legacy[1]
         nd, np_, nl = new[1]
@@ -213,6 +221,10 @@ def check_nodes_variants(s, pos, res):
                 case)
 
 
+PS_VARIANTS = [{'in_math_mode': True}, {'enable_comments': False}, {'enable_macros': False},
+               {'latex_group_delimiters': [('{', '}'), ('[', ']')]}, {'enable_specials': False}]
+
+
 def check_single_variants(s, pos, res):
     from pylatexenc.latexnodes import parsers as P
     from pylatexenc.latexnodes import LatexTokenReader
@@ -230,6 +242,50 @@ def check_single_variants(s, pos, res):
                                 token_reader=tr)
         return (clear_args_for_expression(norm(dump(n))), n.pos, n.pos_end - n.pos)
     compare('get_latex_expression', attempt(legacy_e), attempt(new_e), res, case)
+    # the same entry points with an explicit parsing_state= (it must reach the parser)
+    import zlib
+    pskw = PS_VARIANTS[zlib.crc32(('%s@%d' % (s, pos)).encode('utf-8')) % len(PS_VARIANTS)]
+    case = {'what': 'with-parsing-state', 's': s, 'pos': pos, 'arg': sorted(pskw)}
+
+    def with_ps(which, legacy):
+        w2 = walker(s)
+        ps = w2.make_parsing_state(**pskw)
+        if legacy:
+            if which == 'expression':
+                n, p, l = w2.get_latex_expression(pos, strict_braces=True, parsing_state=ps)
+            elif which == 'braced_group':
+                n, p, l = w2.get_latex_braced_group(pos, parsing_state=ps)
+            else:
+                r = w2.get_latex_maybe_optional_arg(pos, parsing_state=ps)
+                if r is None:
+                    return None
+                n, p, l = r
+            if n is None:
+                return None         # nothing there (end of input): both sides say so
+            d = norm(dump(n))
+            return (clear_args_for_expression(d) if which == 'expression' else d, p, l)
+        tr = w2.make_token_reader(pos=pos)
+        parser = {'expression': P.LatexExpressionParser(return_full_node_list=False),
+                  'braced_group': P.LatexDelimitedGroupParser(delimiters=('{', '}'),
+                                                              allow_pre_space=True),
+                  'optional': P.LatexDelimitedGroupParser(delimiters=('[', ']'), optional=True,
+                                                          allow_pre_space=True)}[which]
+        n, _ = w2.parse_content(parser, token_reader=tr, parsing_state=ps)
+        if n is None:
+            return None
+        d = norm(dump(n))
+        return (clear_args_for_expression(d) if which == 'expression' else d, n.pos,
+                n.pos_end - n.pos)
+    for which in ('expression', 'braced_group'):
+        compare('%s(parsing_state=)' % which, attempt(lambda: with_ps(which, True)),
+                attempt(lambda: with_ps(which, False)), res, dict(case, which=which))
+    a, b = attempt(lambda: with_ps('optional', True)), attempt(lambda: with_ps('optional', False))
+    res.case()
+    if a[0] == 'exc':
+        res.fail('exc:%s@legacy:get_latex_maybe_optional_arg(parsing_state=)' % a[1], str(a), case)
+    elif a != b and b[0] != 'exc':
+        res.fail('c16:differs:get_latex_maybe_optional_arg(parsing_state=)',
+                 'legacy %s vs new %s' % (str(a)[:200], str(b)[:200]), dict(case, which='optional'))
     # braced group
     for bt, pair in (('{', ('{', '}')), ('[', ('[', ']')), ('(', ('(', ')')), ('<', ('<', '>')),
                      (('<', '>'), ('<', '>'))):
@@ -570,7 +626,9 @@ def plan(tier, seed):
                                  'both-succeed:get_latex_nodes(stop_upon_closing_mathmode=$)',
                                  'both-succeed:get_latex_environment',
                                  'both-succeed:get_latex_braced_group([)',
-                                 'legacy-4-tuple-states']}
+                                 'legacy-4-tuple-states', 'tolerant-walkers',
+                                 'both-succeed:expression(parsing_state=)',
+                                 'both-succeed:braced_group(parsing_state=)']}
 
 
 def run_shard(shard, res):
@@ -582,9 +640,15 @@ def run_shard(shard, res):
         for toks in soups.enum_tokens(ALPHA, L, k, NSHARDS):
             s = ''.join(toks)
             positions = sorted(set([0] + list(itertools.accumulate(len(t) for t in toks))))
+            import zlib
+            # a third of the strings is run with tolerant walkers on both sides
+            _MODE['tolerant'] = zlib.crc32(s.encode('utf-8')) % 3 == 0
+            if _MODE['tolerant']:
+                res.label('tolerant-walkers')
             for pos in positions[:-1] if len(positions) > 1 else positions:
                 check_nodes_variants(s, pos, res)
                 check_single_variants(s, pos, res)
+            _MODE['tolerant'] = False
             if any(t in ('{', '[', '$', '\\textbf', '\\begin{x}', '\\sqrt') for t in toks):
                 res.nontriv_distinct()
         res.exhaustive = True
@@ -603,10 +667,16 @@ def check_case(case, res):
         check_legacy_states(res)
     elif w == 'spelling':
         check_spellings(case['argspec'], res, env=case.get('env', False))
-    elif w == 'nodes':
-        check_nodes_variants(case['s'], case['pos'], res)
-    else:
-        check_single_variants(case['s'], case['pos'], res)
+    elif w in ('nodes', 'single') or True:
+        import zlib
+        _MODE['tolerant'] = zlib.crc32(case['s'].encode('utf-8')) % 3 == 0
+        try:
+            if w == 'nodes':
+                check_nodes_variants(case['s'], case['pos'], res)
+            else:
+                check_single_variants(case['s'], case['pos'], res)
+        finally:
+            _MODE['tolerant'] = False
 
 
 def minimise(case, key):
